@@ -577,15 +577,41 @@ var (
 	c12RePartial = regexp.MustCompile(`^blobs/sha256-([0-9a-f]{64})-partial$`)
 	c12RePart    = regexp.MustCompile(`^blobs/sha256-([0-9a-f]{64})-partial-([0-9]+)$`)
 	c12ReTemp    = regexp.MustCompile(`^blobs/(sha256-[0-9]+|tmp-[0-9]+)$`)
+	c12ReBlobsJunk = regexp.MustCompile(`^blobs/([^/]+)$`)
 	c12ReMan     = regexp.MustCompile(`^manifests/([^/]+/[^/]+/[^/]+/[^/]+)$`)
 )
 
 type c12Canon struct {
-	store string
-	temps map[string]int
+	store   string
+	temps   map[string]int
+	inited  bool
+	aliases [][2]string
+}
+
+// aliases: physical location (what /proc/<pid>/fd shows) -> logical location, for every symbolic link in
+// the store (store shapes with symlinked directories)
+func (c *c12Canon) init() {
+	if c.inited {
+		return
+	}
+	c.inited = true
+	filepath.Walk(c.store, func(p string, fi os.FileInfo, err error) error {
+		if err == nil && fi.Mode()&os.ModeSymlink != 0 {
+			if real, err := filepath.EvalSymlinks(p); err == nil {
+				c.aliases = append(c.aliases, [2]string{real + "/", p + "/"})
+			}
+		}
+		return nil
+	})
 }
 
 func (c *c12Canon) path(abs string) string {
+	c.init()
+	for _, a := range c.aliases {
+		if strings.HasPrefix(abs, a[0]) {
+			abs = a[1] + strings.TrimPrefix(abs, a[0])
+		}
+	}
 	rel := strings.TrimPrefix(abs, c.store+"/")
 	if m := c12ReBlob.FindStringSubmatch(rel); m != nil {
 		return "B:" + m[1]
@@ -606,6 +632,14 @@ func (c *c12Canon) path(abs string) string {
 	}
 	if m := c12ReMan.FindStringSubmatch(rel); m != nil {
 		return "M:" + m[1]
+	}
+	if m := c12ReBlobsJunk.FindStringSubmatch(rel); m != nil { // anything else in blobs/: PruneLayers treats it like a temp file
+		k, ok := c.temps[m[1]]
+		if !ok {
+			k = len(c.temps)
+			c.temps[m[1]] = k
+		}
+		return fmt.Sprintf("T:%d", k)
 	}
 	return "X:" + rel
 }
@@ -734,10 +768,8 @@ func (c *c12Canon) effects(evs []c12Sys) []string {
 func c12State(store string) []string {
 	c := &c12Canon{store: store, temps: map[string]int{}}
 	var out []string
-	filepath.Walk(store, func(p string, fi os.FileInfo, err error) error {
-		if err != nil || fi.IsDir() {
-			return nil
-		}
+	c12WalkLogical(store, func(p string, fi os.FileInfo) {
+		func() error {
 		cp := c.path(p)
 		if fi.Size() > 1<<20 { // summarise: length + hash of a 4 KiB sample every MiB
 			h := sha256.New()
@@ -766,6 +798,7 @@ func c12State(store string) []string {
 		}
 		out = append(out, cp+"="+c12Content(kind, data))
 		return nil
+		}()
 	})
 	sort.Strings(out)
 	return out
@@ -775,24 +808,23 @@ func c12State(store string) []string {
 func c12Walk(store string) (readable map[string]*Manifest, torn []string) {
 	readable = map[string]*Manifest{}
 	root := filepath.Join(store, "manifests")
-	filepath.Walk(root, func(p string, fi os.FileInfo, err error) error {
-		if err != nil || fi.IsDir() {
-			return nil
-		}
+	c12WalkLogical(root, func(p string, fi os.FileInfo) {
 		rel, _ := filepath.Rel(root, p)
+		if strings.Count(rel, "/") != 3 { // not addressable by a model name
+			return
+		}
 		f, err := os.Open(p)
 		if err != nil {
 			torn = append(torn, rel)
-			return nil
+			return
 		}
 		defer f.Close()
 		var m Manifest
 		if err := json.NewDecoder(f).Decode(&m); err != nil {
 			torn = append(torn, rel)
-			return nil
+			return
 		}
 		readable[rel] = &m
-		return nil
 	})
 	sort.Strings(torn)
 	return
@@ -894,6 +926,35 @@ func c12Restart() (pruned bool, err error) {
 	return true, nil
 }
 
+// c12WalkLogical visits every file below root by its LOGICAL path, following symbolic links to
+// directories the way name-based resolution does (os.Stat); the top-level directory "linked" (where
+// the store shapes keep their link targets) is not visited under its own name.
+func c12WalkLogical(root string, fn func(p string, fi os.FileInfo)) {
+	var rec func(dir string, top bool)
+	rec = func(dir string, top bool) {
+		ents, err := os.ReadDir(dir)
+		if err != nil {
+			return
+		}
+		for _, e := range ents {
+			if top && e.Name() == "linked" {
+				continue
+			}
+			p := filepath.Join(dir, e.Name())
+			fi, err := os.Stat(p)
+			if err != nil {
+				continue
+			}
+			if fi.IsDir() {
+				rec(p, false)
+			} else {
+				fn(p, fi)
+			}
+		}
+	}
+	rec(root, true)
+}
+
 func c12CopyTree(src, dst string) {
 	filepath.Walk(src, func(p string, fi os.FileInfo, err error) error {
 		if err != nil {
@@ -903,6 +964,13 @@ func c12CopyTree(src, dst string) {
 		q := filepath.Join(dst, rel)
 		if fi.IsDir() {
 			return os.MkdirAll(q, 0o755)
+		}
+		if fi.Mode()&os.ModeSymlink != 0 {
+			target, err := os.Readlink(p)
+			if err != nil {
+				panic(err)
+			}
+			return os.Symlink(target, q)
 		}
 		data, err := os.ReadFile(p)
 		if err != nil {
@@ -1062,14 +1130,10 @@ func c12Join(ss []string) string {
 func c12ManifestBytes(store string) map[string]string {
 	out := map[string]string{}
 	root := filepath.Join(store, "manifests")
-	filepath.Walk(root, func(p string, fi os.FileInfo, err error) error {
-		if err != nil || fi.IsDir() {
-			return nil
-		}
+	c12WalkLogical(root, func(p string, fi os.FileInfo) {
 		rel, _ := filepath.Rel(root, p)
 		b, _ := os.ReadFile(p)
 		out[rel] = string(b)
-		return nil
 	})
 	return out
 }
@@ -1241,6 +1305,53 @@ func TestVerifC12(t *testing.T) {
 		crashStore("S3", "S2", &opPullNew, nth("rm R:", 1))
 		crashStore("S4", "S2", &opPullNew, nth("pw ", 2))
 
+		// ---- store SHAPES (made by the parent from S1): symbolic links where the code follows them, files the
+		// lister must ignore, an empty directory, a models path with a glob metacharacter
+		shape := func(name string, f func(dir string)) {
+			dir := filepath.Join(work, fmt.Sprintf("r%d-%s", round, name))
+			c12CopyTree(stores["S1"], dir)
+			f(dir)
+			stores[name] = dir
+		}
+		must := func(err error) {
+			if err != nil {
+				t.Fatal(err)
+			}
+		}
+		junk := func(dir string) {
+			lib := filepath.Join(dir, "manifests", "registry.ollama.ai", "library")
+			must(os.WriteFile(filepath.Join(dir, "manifests", "registry.ollama.ai", "README"), []byte("depth 2"), 0o644))
+			must(os.MkdirAll(filepath.Join(lib, "x", "tagdir"), 0o755))
+			must(os.WriteFile(filepath.Join(lib, "x", "tagdir", "extra"), []byte("depth 5"), 0o644))
+			must(os.MkdirAll(filepath.Join(lib, "emptymodel"), 0o755))
+			must(os.WriteFile(filepath.Join(dir, "blobs", "notes.txt"), []byte("junk in blobs"), 0o644))
+			must(os.WriteFile(filepath.Join(dir, "history"), []byte("outside"), 0o644))
+		}
+		// S5: the directory of model b is a symlink (manifests/<host>/<ns>/b -> linked/b) + junk files
+		shape("S5", func(dir string) {
+			lib := filepath.Join(dir, "manifests", "registry.ollama.ai", "library")
+			must(os.MkdirAll(filepath.Join(dir, "linked"), 0o755))
+			must(os.Rename(filepath.Join(lib, "b"), filepath.Join(dir, "linked", "b")))
+			must(os.Symlink("../../../linked/b", filepath.Join(lib, "b")))
+			junk(dir)
+		})
+		// S6: the host directory is a symlink (manifests/<host> -> linked/host)
+		shape("S6", func(dir string) {
+			must(os.MkdirAll(filepath.Join(dir, "linked"), 0o755))
+			must(os.Rename(filepath.Join(dir, "manifests", "registry.ollama.ai"), filepath.Join(dir, "linked", "host")))
+			must(os.Symlink("../linked/host", filepath.Join(dir, "manifests", "registry.ollama.ai")))
+		})
+		// S7: blobs/ and manifests/ themselves are symlinks
+		shape("S7", func(dir string) {
+			must(os.MkdirAll(filepath.Join(dir, "linked"), 0o755))
+			must(os.Rename(filepath.Join(dir, "blobs"), filepath.Join(dir, "linked", "blobs")))
+			must(os.Symlink("linked/blobs", filepath.Join(dir, "blobs")))
+			must(os.Rename(filepath.Join(dir, "manifests"), filepath.Join(dir, "linked", "manifests")))
+			must(os.Symlink("linked/manifests", filepath.Join(dir, "manifests")))
+		})
+		// S8[x]: the models path contains a glob metacharacter
+		shape("S8[x]", func(dir string) {})
+
 		// ---- which variant is this tree? (from the real syscall trace, no constant)
 		am, ap := 0, 0
 		{
@@ -1274,6 +1385,7 @@ func TestVerifC12(t *testing.T) {
 			Op           *c12Op
 			Involved     []string
 			NoL1         bool // multi-part pull: outside the Lean model; L2 monitors only, sampled body writes
+			Reduced      bool // kill points: non-body store syscalls + the middle of each run of body writes only
 		}
 		// the same operations under OLLAMA_NOPRUNE=1 (no start-up prune, replaced layers are kept)
 		np := func(op c12Op) *c12Op { op.NoPrune = true; return &op }
@@ -1293,36 +1405,54 @@ func TestVerifC12(t *testing.T) {
 		}
 		inv := func(n string) []string { return []string{c12Lib + n + "/latest"} }
 		scen := []scenario{
-			{"S1", "upload-new", &c12Op{Kind: "upload", Uploads: c12Blobs(g2), Chunk: chunk}, nil, false},
-			{"S1", "create-new", &opCreateNew, inv("d"), false},
-			{"S1", "create-replace", &opCreateRepl, inv("a"), false},
-			{"S1", "copy-new", &opCopyNew, inv("e"), false},
-			{"S1", "copy-over", &opCopyOver, inv("c"), false},
-			{"S1", "delete-shared", &opDelShared, inv("a"), false},
-			{"S1", "delete-unshared", &opDelUnshared, inv("c"), false},
-			{"S1", "pull-new", &opPullNew, inv("f"), false},
-			{"S1", "pull-update", &opPullUpd, inv("c"), false},
-			{"S2", "pull-new", &opPullNew, inv("f"), false},
-			{"S2", "create-new", &opCreateNew, inv("d"), false},
-			{"S3", "pull-new", &opPullNew, inv("f"), false},
-			{"S1", "pull-new-noprune", np(opPullNew), inv("f"), false},
-			{"S1", "pull-update-noprune", np(opPullUpd), inv("c"), false},
-			{"S1", "create-replace-noprune", np(opCreateRepl), inv("a"), false},
+			{"S1", "upload-new", &c12Op{Kind: "upload", Uploads: c12Blobs(g2), Chunk: chunk}, nil, false, false},
+			{"S1", "create-new", &opCreateNew, inv("d"), false, false},
+			{"S1", "create-replace", &opCreateRepl, inv("a"), false, false},
+			{"S1", "copy-new", &opCopyNew, inv("e"), false, false},
+			{"S1", "copy-over", &opCopyOver, inv("c"), false, false},
+			{"S1", "delete-shared", &opDelShared, inv("a"), false, false},
+			{"S1", "delete-unshared", &opDelUnshared, inv("c"), false, false},
+			{"S1", "pull-new", &opPullNew, inv("f"), false, false},
+			{"S1", "pull-update", &opPullUpd, inv("c"), false, false},
+			{"S2", "pull-new", &opPullNew, inv("f"), false, false},
+			{"S2", "create-new", &opCreateNew, inv("d"), false, false},
+			{"S3", "pull-new", &opPullNew, inv("f"), false, false},
+			{"S1", "pull-new-noprune", np(opPullNew), inv("f"), false, false},
+			{"S1", "pull-update-noprune", np(opPullUpd), inv("c"), false, false},
+			{"S1", "create-replace-noprune", np(opCreateRepl), inv("a"), false, false},
 		}
+		scen = append(scen,
+			scenario{Store: "S5", Label: "pull-new", Op: &opPullNew, Involved: inv("f")},
+			scenario{Store: "S5", Label: "delete-shared", Op: &opDelShared, Involved: inv("a")},
+			scenario{Store: "S6", Label: "pull-new", Op: &opPullNew, Involved: inv("f")},
+			scenario{Store: "S8[x]", Label: "copy-new", Op: &opCopyNew, Involved: inv("e"), NoL1: true},
+		)
 		if opPullBig != nil {
-			scen = append(scen, scenario{"S1", "pull-multipart-noprune", opPullBig, inv("g"), true})
+			scen = append(scen, scenario{Store: "S1", Label: "pull-multipart-noprune", Op: opPullBig, Involved: inv("g"), NoL1: true})
+			// the same multi-part pull in the DEFAULT configuration: the start-up prune must clear the part bookkeeping
+			def := *opPullBig
+			def.NoPrune = false
+			scen = append(scen, scenario{Store: "S1", Label: "pull-multipart", Op: &def, Involved: inv("g"), NoL1: true, Reduced: true})
 		}
 		if thorough {
 			scen = append(scen,
-				scenario{"S1", "create-share", &opCreateShare, inv("d"), false},
-				scenario{"S2", "pull-update", &opPullUpd, inv("c"), false},
-				scenario{"S2", "create-replace", &opCreateRepl, inv("a"), false},
-				scenario{"S2", "copy-over", &opCopyOver, inv("c"), false},
-				scenario{"S2", "delete-unshared", &opDelUnshared, inv("c"), false},
-				scenario{"S2", "delete-shared", &opDelShared, inv("a"), false},
-				scenario{"S3", "pull-update", &opPullUpd, inv("c"), false},
-				scenario{"S4", "pull-new", &opPullNew, inv("f"), false},
-				scenario{"S4", "pull-update", &opPullUpd, inv("c"), false},
+				scenario{Store: "S5", Label: "create-replace", Op: &opCreateRepl, Involved: inv("a")},
+				scenario{Store: "S5", Label: "pull-update", Op: &opPullUpd, Involved: inv("c")},
+				scenario{Store: "S6", Label: "delete-shared", Op: &opDelShared, Involved: inv("a")},
+				scenario{Store: "S6", Label: "create-new", Op: &opCreateNew, Involved: inv("d")},
+				scenario{Store: "S7", Label: "pull-new", Op: &opPullNew, Involved: inv("f")},
+				scenario{Store: "S7", Label: "create-replace", Op: &opCreateRepl, Involved: inv("a")},
+				scenario{Store: "S7", Label: "delete-unshared", Op: &opDelUnshared, Involved: inv("c")},
+				scenario{Store: "S8[x]", Label: "pull-new", Op: &opPullNew, Involved: inv("f"), NoL1: true},
+				scenario{"S1", "create-share", &opCreateShare, inv("d"), false, false},
+				scenario{"S2", "pull-update", &opPullUpd, inv("c"), false, false},
+				scenario{"S2", "create-replace", &opCreateRepl, inv("a"), false, false},
+				scenario{"S2", "copy-over", &opCopyOver, inv("c"), false, false},
+				scenario{"S2", "delete-unshared", &opDelUnshared, inv("c"), false, false},
+				scenario{"S2", "delete-shared", &opDelShared, inv("a"), false, false},
+				scenario{"S3", "pull-update", &opPullUpd, inv("c"), false, false},
+				scenario{"S4", "pull-new", &opPullNew, inv("f"), false, false},
+				scenario{"S4", "pull-update", &opPullUpd, inv("c"), false, false},
 			)
 		}
 
@@ -1445,12 +1575,14 @@ func TestVerifC12(t *testing.T) {
 					for n+1 <= entered && n < len(evs) && evs[n].Big {
 						n++
 					}
-					points = append(points, lo)
-					if n > lo+1 {
-						points = append(points, (lo+n)/2)
+					if !sc.Reduced {
+						points = append(points, lo)
+						if n > lo {
+							points = append(points, n)
+						}
 					}
-					if n > lo {
-						points = append(points, n)
+					if n > lo+1 || sc.Reduced {
+						points = append(points, (lo+n)/2)
 					}
 					out.Add("multipart_body_writes", n-lo+1)
 					continue
@@ -1519,6 +1651,10 @@ func TestVerifC12(t *testing.T) {
 				pruned, err := c12Restart()
 				if err != nil {
 					out.L2("restart-failed", caseLine, err.Error())
+				}
+				if !inRmRun {
+					out.Case(fmt.Sprintf("restarted %d %s", k, job), c12Join(c12State(dir)))
+					out.Count("l1_restarted_lines")
 				}
 				if pruned {
 					out.Count("restart_pruned")
